@@ -19,7 +19,7 @@ pub static DEF: PropDef = PropDef {
         "every node's arrow is pinned to the generated annotation through the public Context::unify, so the program that runs is exactly the typed term that was generated",
     ],
     shards: (32, 128),
-    budget_ms: (10_000, 30_000),
+    budget_ms: (60_000, 180_000),
 };
 
 #[derive(Clone, Copy, PartialEq, Eq)]
